@@ -89,6 +89,8 @@ def check(tier, seed, replay=None):
         "exhaustive": False,
         "tokens_read": toks,
         "families": meta,
+        "unverifiable_overflow": v.overflow_ids[:10],
+        "unverifiable_overflow_count": len(v.overflow_ids),
     }
     o.assumptions = ["tokens are split on white space and numeric tokens parsed by Rust's f64 parser in the harness; numbers are compared by sign and bit pattern"]
     return o.finish()
